@@ -31,7 +31,7 @@ def generate(rng, tier):
         ns = rng.randint(2, 5)
         ntr = rng.randint(1, 5)
         trjs = [[rng.randrange(ns) for _ in range(rng.choice([1, 1, 2, 3, 4, 5, 6, 7, 8, 10]))] for _ in range(ntr)]
-        lag = rng.choice([1, 1, 2, 2, 3, 3, 4, 5, 6])
+        lag = rng.choice([1, 1, 2, 2, 3, 3, 4, 5, 6]) if rng.random() > 0.04 else rng.choice([0, -1, -3])   # malformed: lag < 1
         c = {"trjs": trjs, "lag": lag, "sliding": rng.random() < 0.5,
              "maxn": rng.choice([None, None, ns, ns + 2])}
         if rng.random() < 0.25:
@@ -98,6 +98,8 @@ def _brute(c):
 
 def oracle(c, r):
     out = []
+    if c["lag"] < 1:
+        return [] if all("err" in r[f] for f in ("ragged", "padded", "reversed")) else [("lag-accepted", "lag %d accepted: %s" % (c["lag"], str(r)[:200]))]
     exp = _brute(c)
     for form in ("ragged", "padded", "reversed"):
         if r[form].get("mat") != exp:
@@ -124,19 +126,21 @@ def coq_check(c, r):
         exp = "(Some %s)" % clist(m["mat"], lambda row: clist(row, cn, "nat"), "(list nat)")
     else:
         exp = "(@None (list (list nat)))"
-    return "CaseLib.opt_eqb (CaseLib.list_eqb CaseLib.nl_eqb) (counts_matrix %s) %s" % (_args(c), exp)
+    return "CaseLib.opt_eqb (CaseLib.list_eqb CaseLib.nl_eqb) (assigns_to_counts %s) %s" % (_args(c), exp)
 
 
 def coq_show(c):
-    return "counts_matrix %s" % _args(c)
+    return "assigns_to_counts %s" % _args(c)
 
 
 def nontrivial(c, r):
-    return any(len(t) > c["lag"] for t in c["trjs"]) and len({x for t in c["trjs"] for x in t}) >= 2
+    return c["lag"] >= 1 and any(len(t) > c["lag"] for t in c["trjs"]) and len({x for t in c["trjs"] for x in t}) >= 2
 
 
 def tags(c, r):
     t = ["sliding" if c["sliding"] else "strided", "maxn-given" if c["maxn"] is not None else "maxn-inferred"]
+    if c["lag"] < 1:
+        t.append("lag-below-one")
     if "dtype" in c:
         t.append("narrow-dtype")
     if any(len(x) <= c["lag"] for x in c["trjs"]):
@@ -144,4 +148,4 @@ def tags(c, r):
     return t
 
 
-ESSENTIAL_TAGS = ["sliding", "strided", "traj-shorter-than-lag", "maxn-inferred", "narrow-dtype"]
+ESSENTIAL_TAGS = ["sliding", "strided", "traj-shorter-than-lag", "maxn-inferred", "narrow-dtype", "lag-below-one"]
